@@ -30,7 +30,7 @@ let parse_call (s : string) : call =
   | 'G' -> CMetrics
   | 'X' -> CShutdown
   | 'L' -> CSetLenMax (n_of_dec arg)
-  | 'I' | 'V' | 'A' -> COther
+  | 'I' | 'V' -> COther
   | _ -> failwith "call"
 
 let parse_history (spec : string) : stepin list =
@@ -144,7 +144,7 @@ let mon_c14 (case : string list) (result : string) : string =
        if chk_C14 (parse_history spec) tr then "PASS" else "FAIL shutdown property violated (chk_C14)"
      with Dead what -> "FAIL daemon thread " ^ what)
   | [ "stress_shutdown"; _; _; _ ] ->
-    if starts_with result "OK " then "PASS" else "FAIL " ^ result
+    if result = "OK" || starts_with result "OK " then "PASS" else "FAIL " ^ result
   | _ -> "BADCASE"
 
 (* C15: no PANIC/HANG result; for simulated histories additionally the daemon survived and
